@@ -316,6 +316,8 @@ type cs struct {
 	damaged bool
 	// oids of the two objects of branch `oldb` (stepOldPushedBranch)
 	oldPushed []string
+	// generator's record: index entry ("<worktree dir>\x00<path>") -> state its working copy was put in after staging
+	idxState map[string]string
 }
 
 func (c *cs) trigger() string {
@@ -1043,6 +1045,8 @@ func (c *cs) buildState() {
 	}
 	// final states of the linked worktrees (directory removed, locked, detached, staged file, git worktree prune)
 	c.stepWorktreeStates()
+	// staged versions whose working copy was edited / deleted / replaced / touched afterwards (indexstates.go)
+	c.stepIndexStates()
 	// configuration under test is written last so that building the state is not influenced by it
 	c.mustGit(c.main, "config", "config", "lfs.fetchrecentrefsdays", fmt.Sprint(cfg.RefsDays))
 	c.mustGit(c.main, "config", "config", "lfs.fetchrecentcommitsdays", fmt.Sprint(cfg.CommitsDays))
@@ -1132,7 +1136,7 @@ func runCase(run *evid.Run, idx int) {
 	}
 	srv := fakelfs.New()
 	defer srv.Close()
-	c := &cs{run: run, env: env, srv: srv, r: r, cfg: cfg, t0: time.Now().Truncate(time.Second), feat: map[string]bool{},
+	c := &cs{run: run, env: env, srv: srv, r: r, cfg: cfg, t0: time.Now().Truncate(time.Second), feat: map[string]bool{}, idxState: map[string]string{},
 		ptrs: map[string][]histgen.PointerRef{}, blobs: map[string]*blobPtr{}}
 	c.buildState()
 	gitDir := filepath.Join(c.main, ".git")
@@ -1155,6 +1159,30 @@ func runCase(run *evid.Run, idx int) {
 	}
 	orc := c.computeOracle()
 	orc.addRecentCommits(c, cwdTop)
+	{
+		// index objects whose entries all had their working copy changed after staging, per recorded state, and
+		// those of them nothing but the index clause retains
+		otherClause := func(oid string) bool {
+			for cl, m := range orc.clause {
+				if _, ok := m[oid]; ok && cl != "index" {
+					return true
+				}
+			}
+			return false
+		}
+		n := 0
+		for oid := range orc.clause["index"] {
+			if t := c.indexTrigger(orc, oid); t != "" {
+				st := strings.ReplaceAll(strings.TrimPrefix(t, "index-entry-worktree-differs/"), "-", "_")
+				run.Count("index_clause_objects_with_state_"+st, 1)
+				if !otherClause(oid) {
+					n++
+					run.Count("objects_needed_only_by_index_entry_in_state_"+st, 1)
+				}
+			}
+		}
+		run.Count("objects_needed_only_by_index_entry_whose_working_copy_changed", int64(n))
+	}
 	outside := 0
 	if len(cfg.Include) > 0 {
 		seen := map[string]bool{}
@@ -1521,6 +1549,11 @@ func runCase(run *evid.Run, idx int) {
 							trig = t
 						}
 					}
+					if cl == "index" && inv.Damage == "" {
+						if t := c.indexTrigger(orc, oid); t != "" {
+							trig = t
+						}
+					}
 					if inv.Damage == "" && orc.outsideInclude(cl, oid) {
 						// every path under which this clause needs the object lies outside lfs.fetchinclude: that
 						// setting is the coordinate, whatever else the case contains
@@ -1588,7 +1621,7 @@ func main() {
 	if os.Getenv("VERIF_C05_KEEP") == "" {
 		defer sbx.RemoveBase()
 	}
-	run.Rule = "per repository: histgen history (branches, merges incl. octopus, orphan branches, tags, renames/copies/deletes, symlinks, exec bits, empty files, >=2 LFS files per commit in 3/4 of the cases) with commit ages drawn from {0.5,1.5,2.5,5,9,12,30} days; partial push (whole branch / ancestor / nothing / tags) through the pre-push hook to the in-driver fake LFS server; seeded plan over {local commits with 1-3 LFS files, delete+modify commits, stash plain/-u/--keep-index/--staged, staged files, unreachable objects, detached HEAD, branch switches, extra worktrees (detached or on a new branch, with staged file / local commit / stash; at the end 1/4 of them lose their directory, a third of those locked), text files moving in and out of LFS tracking, later pushes, stash drop, objects deleted on the server} x lfs.fetchrecentrefsdays/fetchrecentcommitsdays/pruneoffsetdays in {0,1,3,7} x lfs.fetchexclude patterns x lfs.fetchinclude {unset, matching part of the paths, matching nothing, matching everything} set via {.git/config, ~/.gitconfig, git -c, GIT_CONFIG_COUNT/KEY/VALUE, untracked .lfsconfig of the worktree the command runs in} (by case index, crossed with the drawn fetchexclude; expected to change nothing) x prune remote name x cwd {top, sub-directory, extra worktree} x attribute spelling {track line, text, eol=lf, text eol=lf, diff=custom; tagged: binary, -diff, custom driver declared binary} x ambient ~/.gitconfig profile (9 harmless profiles; tagged: diff.noprefix, log.showroot=false, diff.relative) x remotes {single; in 1/3 of the cases a second remote `upstream` with its own LFS store, 2-3 branches with fresh objects pushed only to it with tip ages on both sides of the recent-refs window, one more pushed only to the first remote, local branches deleted (sometimes kept)} x lfs.pruneremotetocheck {unset, first remote, upstream} x lfs.fetchrecentremoterefs {unset, true, false} x a pushed recent branch `vb` whose commit inside the recent-commits window measured from its own tip replaces an LFS file (when both windows are > 0) x final worktree states: one dedicated extra worktree per case with kind by case index in {present, present+staged LFS file, present detached, directory removed (Git: prunable), removed detached, removed + git worktree lock, removed + git worktree prune (registration gone)}, a second one in half of the cases; in 3/4 (always for kind removed) its HEAD is a dedicated commit aged 30 days with two fresh LFS files, pushed to the prune remote, so that only the registered worktree's checkout needs them; occasionally git worktree prune as last step x flag sets {--dry-run + X, (none), --recent, --force, --verify-remote, +--verify-unreachable, +--when-unverified=continue, combinations}. Route: `git lfs prune <flags>`, and 1-2 runs per case through `git lfs fetch --prune [remote]` (verification via lfs.pruneverifyremotealways / lfs.pruneverifyunreachablealways, --dry-run, with and without lfs.fetchrecentalways and the remote argument; two objects of HEAD removed before so that the fetch part downloads). Last in every case: scan-failure runs: after the must-retain set was computed, one loose Git object a scan needs {stash commit / tree, newest unpushed commit / its tree, HEAD~1, HEAD's tree, tree of a recent branch tip, HEAD commit of another registered worktree} is deleted / emptied / overwritten with garbage, or refs/heads/broken is planted pointing at a missing commit (kind by case index, first applicable), then prune with (none) and one of {--verify-remote [--when-unverified=continue], --recent, --force} (+ fetch --prune in 1/3). Two runs per case over the verification switches: flags {--verify-remote, --no-verify-remote, --verify-unreachable, --no-verify-unreachable, --when-unverified=halt|continue} x configuration {lfs.pruneverifyremotealways, lfs.pruneverifyunreachablealways in unset/true/false, via GIT_CONFIG_*} in 18 shapes of three groups (in effect through configuration only; in effect with --no-verify-unreachable added; switched off by --no-verify-remote against configuration true, refused --verify-remote + --no-verify-remote, flag against configuration false, lone switches), after a reachable, pushed, prunable object was deleted on the server. One evaluation = one such run on the fully restored store. Class = (known trigger in the case, attribute spelling, ambient profile, cwd kind, kinds of the dedicated worktrees, remotes/prune remote/fetchrecentremoterefs, flags). Each period of 18 cases has 10 without any known trigger and 8 with exactly one."
+	run.Rule = "per repository: histgen history (branches, merges incl. octopus, orphan branches, tags, renames/copies/deletes, symlinks, exec bits, empty files, >=2 LFS files per commit in 3/4 of the cases) with commit ages drawn from {0.5,1.5,2.5,5,9,12,30} days; partial push (whole branch / ancestor / nothing / tags) through the pre-push hook to the in-driver fake LFS server; seeded plan over {local commits with 1-3 LFS files, delete+modify commits, stash plain/-u/--keep-index/--staged, staged files, unreachable objects, detached HEAD, branch switches, extra worktrees (detached or on a new branch, with staged file / local commit / stash; at the end 1/4 of them lose their directory, a third of those locked), text files moving in and out of LFS tracking, later pushes, stash drop, objects deleted on the server} x lfs.fetchrecentrefsdays/fetchrecentcommitsdays/pruneoffsetdays in {0,1,3,7} x lfs.fetchexclude patterns x lfs.fetchinclude {unset, matching part of the paths, matching nothing, matching everything} set via {.git/config, ~/.gitconfig, git -c, GIT_CONFIG_COUNT/KEY/VALUE, untracked .lfsconfig of the worktree the command runs in} (by case index, crossed with the drawn fetchexclude; expected to change nothing) x prune remote name x cwd {top, sub-directory, extra worktree} x attribute spelling {track line, text, eol=lf, text eol=lf, diff=custom; tagged: binary, -diff, custom driver declared binary} x ambient ~/.gitconfig profile (9 harmless profiles; tagged: diff.noprefix, log.showroot=false, diff.relative) x remotes {single; in 1/3 of the cases a second remote `upstream` with its own LFS store, 2-3 branches with fresh objects pushed only to it with tip ages on both sides of the recent-refs window, one more pushed only to the first remote, local branches deleted (sometimes kept)} x lfs.pruneremotetocheck {unset, first remote, upstream} x lfs.fetchrecentremoterefs {unset, true, false} x a pushed recent branch `vb` whose commit inside the recent-commits window measured from its own tip replaces an LFS file (when both windows are > 0) x index states (three staged paths in the main worktree and one in a present linked worktree: staged then edited again / deleted from the work tree / replaced by another object's pointer text / by its own pointer text / by non-LFS text / made stat-dirty; new file or modification of a file committed in HEAD; git add --intent-to-add; rotating with the case index) x final worktree states: one dedicated extra worktree per case with kind by case index in {present, present+staged LFS file, present detached, directory removed (Git: prunable), removed detached, removed + git worktree lock, removed + git worktree prune (registration gone)}, a second one in half of the cases; in 3/4 (always for kind removed) its HEAD is a dedicated commit aged 30 days with two fresh LFS files, pushed to the prune remote, so that only the registered worktree's checkout needs them; occasionally git worktree prune as last step x flag sets {--dry-run + X, (none), --recent, --force, --verify-remote, +--verify-unreachable, +--when-unverified=continue, combinations}. Route: `git lfs prune <flags>`, and 1-2 runs per case through `git lfs fetch --prune [remote]` (verification via lfs.pruneverifyremotealways / lfs.pruneverifyunreachablealways, --dry-run, with and without lfs.fetchrecentalways and the remote argument; two objects of HEAD removed before so that the fetch part downloads). Last in every case: scan-failure runs: after the must-retain set was computed, one loose Git object a scan needs {stash commit / tree, newest unpushed commit / its tree, HEAD~1, HEAD's tree, tree of a recent branch tip, HEAD commit of another registered worktree} is deleted / emptied / overwritten with garbage, or refs/heads/broken is planted pointing at a missing commit (kind by case index, first applicable), then prune with (none) and one of {--verify-remote [--when-unverified=continue], --recent, --force} (+ fetch --prune in 1/3). Two runs per case over the verification switches: flags {--verify-remote, --no-verify-remote, --verify-unreachable, --no-verify-unreachable, --when-unverified=halt|continue} x configuration {lfs.pruneverifyremotealways, lfs.pruneverifyunreachablealways in unset/true/false, via GIT_CONFIG_*} in 18 shapes of three groups (in effect through configuration only; in effect with --no-verify-unreachable added; switched off by --no-verify-remote against configuration true, refused --verify-remote + --no-verify-remote, flag against configuration false, lone switches), after a reachable, pushed, prunable object was deleted on the server. One evaluation = one such run on the fully restored store. Class = (known trigger in the case, attribute spelling, ambient profile, cwd kind, kinds of the dedicated worktrees, remotes/prune remote/fetchrecentremoterefs, flags). Each period of 18 cases has 10 without any known trigger and 8 with exactly one."
 	run.Assumptions = []string{
 		"must-retain is a lower bound: weakest readings are documented in oracle.go (checkout = HEAD tree of every non-bare entry of `git worktree list --porcelain`, directory present or not, until `git worktree prune` unregisters it; index only of worktrees whose directory exists; recent remote refs = tips of remote-tracking branches of every remote unless lfs.fetchrecentremoterefs=false; stash = objects the stash commits add relative to their base commit; recent refs = local branches only; previous versions = pointers replaced by a pointer or deleted in a non-merge commit reachable through in-window commits; unpushed = in a tree of a commit reachable from a local branch/tag and in no tree of a commit reachable from refs/remotes/<prune remote>/*; fetchexclude exempts generously; --force waives everything but unpushed)",
 		"commit ages are >= 12 h away from every window boundary; the only use of the wall clock is the base time the ages are subtracted from",
